@@ -180,6 +180,38 @@ def corpus_evaluate_exact(res):
 def search(res, tier, boost=False):
     corpus_evaluate_exact(res)
     rng = seed_rng(res.seed, 'C04s')
+
+    # cache directory + element orders: the matrix a call gets is the table of ITS pairs in ITS order (rows = test, columns =
+    # trial): with the elements sorted by time slab it is block lower triangular whatever an earlier call stored
+    from ..slchecks import cache_order_probe
+    import src.parametrization as Pm_
+    from src.mesh import MeshParametrized
+    from src.single_layer import SingleLayerOperator
+    with contextlib.redirect_stdout(io.StringIO()):
+        mesh_c = MeshParametrized(Pm_.UnitSquare())
+        mesh_c.uniform_refine()
+        ref_c = SingleLayerOperator(mesh_c)
+    els_c = list(mesh_c.leaf_elements)
+    for nm, ph, got, lst in cache_order_probe(lambda d: SingleLayerOperator(mesh_c, cache_dir=d), lambda op, l: op.bilform_matrix(l, l), els_c, rng):
+        res.count(('cache-order-matrix', nm, ph), True)
+        bad = None
+        for i_, te in enumerate(lst):
+            for j_, tr in enumerate(lst):
+                acausal = te.time_interval[1] <= tr.time_interval[0]
+                if acausal and got[i_, j_] != 0:
+                    bad = ('acausal-entry-nonzero', i_, j_)
+                elif not acausal and not got[i_, j_] > 0:
+                    bad = ('entry-not-positive', i_, j_)
+                elif got[i_, j_] != ref_c.bilform(tr, te):
+                    bad = ('matrix-not-rows-test-columns-trial', i_, j_)
+                if bad:
+                    break
+            if bad:
+                break
+        if bad:
+            res.violation('C04:%s:cache-element-order' % bad[0], dict(order=nm, phase=ph, i=bad[1], j=bad[2], test=describe(lst[bad[1]]), trial=describe(lst[bad[2]]),
+                          value=float(got[bad[1], bad[2]]), note='one cache directory, the same elements requested in another order'))
+            break
     curves = ['UnitSquare', 'Circle', 'LShape', 'UnitInterval', 'PiSquare']
     n_mesh = (2 if tier == 'quick' else 10) * (2 if boost else 1)
     for mi in range(n_mesh):
@@ -316,7 +348,11 @@ def search(res, tier, boost=False):
                 lx = max(lx, 2)
             kt = rng.choice([0, 1, rng.randrange(2**lt)])
             thin.append(StubElem((kt * 2.0**-lt, (kt + 1) * 2.0**-lt), addr_interval(gamma, (pc, lx, rng.randrange(2**lx))), gamma.pw_gamma[pc]))
-        SL._init_elems(thin)
+        try:
+            SL._init_elems(thin)
+        except Exception:  # noqa: BLE001 - the operator refuses elements that are not mesh elements: they are left out
+            res.bump('thin_stub_section_skipped')
+            thin = []
         for tr in rng.sample(elems, min(6 if tier == 'quick' else 10, len(elems))) + thin:
             t0, t1 = float(tr.time_interval[0]), float(tr.time_interval[1])
             x0, x1 = float(tr.space_interval[0]), float(tr.space_interval[1])
